@@ -226,6 +226,20 @@ def do_action(mc, md, drv, act):
         md.tree[act[1]] = "d"
         md.val[act[1]] = 5
         return mc, None
+    if kind == "cp_obj":  # destination given as a group object (root or sub-group) + name=
+        src, grp, name = act[1], act[2], act[3]
+        dst = name if grp == "/" else grp + "/" + name
+        if src not in md.tree or dst in md.tree or (grp != "/" and md.tree.get(grp) != "g"):
+            return mc, None
+        mc.copy(src, mc if grp == "/" else mc[grp], name=name)
+        md.cp(src, dst)
+        return mc, None
+    if kind == "rm_root":  # the root cannot be deleted: refused, and nothing (in particular no metadata) is lost
+        try:
+            del mc["/"]
+            return mc, ("deleting the root node was accepted",)
+        except (KeyError, ValueError):
+            return mc, None
     if kind in ("cp", "cp_nometa", "mv"):
         src, dst = act[1], act[2]
         if src not in md.tree or dst in md.tree:
@@ -441,7 +455,7 @@ def check_all(mc, md):
 
 def seq(a1: int, a2: int, a3: int, a4: int) -> bool:
     """
-    pre: 0 <= a1 <= 25 and 0 <= a2 <= 25 and 0 <= a3 <= 25 and 0 <= a4 <= 25
+    pre: 0 <= a1 < len(ACTIONS) and 0 <= a2 < len(ACTIONS) and 0 <= a3 < len(ACTIONS) and 0 <= a4 < len(ACTIONS)
     post: _
     """
     k = SEL.get("k", 3)
